@@ -91,39 +91,39 @@ func (tb *vTB) logsContain(sub string) bool {
 // ---- symbolic property programs ----
 
 const (
-	opReturn    = iota // end the invocation normally
-	opDrawBool         // Bool().Draw
-	opDrawByte         // Uint8().Draw  (biased kernel)
-	opErrorf           // t.Errorf  (non-fatal)
-	opFail             // t.Fail    (non-fatal)
-	opFatalA           // t.Fatalf at site A
-	opFatalB           // t.Fatalf at site B
-	opFailNow          // t.FailNow
-	opPanicStr         // panic("...")
-	opPanicErr         // panic(error value)
-	opNilDeref         // run-time panic
-	opSkip             // t.Skip
-	opCleanup          // register a cleanup that runs the sub-program
-	opCtx              // sample t.Context()
-	opCustom           // draw from Custom(fn) where fn runs the sub-program on its own T
-	opDrawSmall        // IntRange(0,3).Draw
-	opFatalIfBit       // Fatalf at site C iff the last drawn bool was true (data-dependent failure)
-	opDrawWord         // read one raw 64-bit word from the bitstream
-	opIfBit            // execute the next opcode only if the last drawn bool was true
-	opNilDerefB        // run-time panic at a second site (same message as opNilDeref)
-	opDeepA            // Fatalf reached through 20 frames of recursion, called from statement A
-	opDrawDistinct     // SliceOfDistinct(Bool()).Draw (rejection-based)
-	opDrawFiltered     // Bool().Filter(id).Draw (rejection-based)
-	opDeepB            // the same helper called from statement B: the tracebacks differ only in the outermost frames
-	opFatalVal         // Fatalf at site D whose MESSAGE depends on the last drawn bool (same traceback, two messages)
-	opErrorEmpty       // t.Error() with no arguments: a non-fatal failure whose message is the empty string
-	opPanicNil         // panic(nil)
-	opDrawRune         // RuneFrom(3 runes of different encoded length).Draw: loaded die + index draw
-	opHelperA          // Fatalf at the first of two sites inside ONE helper function that calls t.Helper()
-	opHelperB          // Fatalf at the second site of the same helper (same caller line)
-	opPanicVal         // panic whose VALUE (and so its message) depends on the last drawn bool, at one site
-	opCleanupFailA     // register a cleanup function that fails (Fatalf) - site A
-	opCleanupFailB     // register another cleanup function that fails (Fatalf) - site B: a different function
+	opReturn       = iota // end the invocation normally
+	opDrawBool            // Bool().Draw
+	opDrawByte            // Uint8().Draw  (biased kernel)
+	opErrorf              // t.Errorf  (non-fatal)
+	opFail                // t.Fail    (non-fatal)
+	opFatalA              // t.Fatalf at site A
+	opFatalB              // t.Fatalf at site B
+	opFailNow             // t.FailNow
+	opPanicStr            // panic("...")
+	opPanicErr            // panic(error value)
+	opNilDeref            // run-time panic
+	opSkip                // t.Skip
+	opCleanup             // register a cleanup that runs the sub-program
+	opCtx                 // sample t.Context()
+	opCustom              // draw from Custom(fn) where fn runs the sub-program on its own T
+	opDrawSmall           // IntRange(0,3).Draw
+	opFatalIfBit          // Fatalf at site C iff the last drawn bool was true (data-dependent failure)
+	opDrawWord            // read one raw 64-bit word from the bitstream
+	opIfBit               // execute the next opcode only if the last drawn bool was true
+	opNilDerefB           // run-time panic at a second site (same message as opNilDeref)
+	opDeepA               // Fatalf reached through 20 frames of recursion, called from statement A
+	opDrawDistinct        // SliceOfDistinct(Bool()).Draw (rejection-based)
+	opDrawFiltered        // Bool().Filter(id).Draw (rejection-based)
+	opDeepB               // the same helper called from statement B: the tracebacks differ only in the outermost frames
+	opFatalVal            // Fatalf at site D whose MESSAGE depends on the last drawn bool (same traceback, two messages)
+	opErrorEmpty          // t.Error() with no arguments: a non-fatal failure whose message is the empty string
+	opPanicNil            // panic(nil)
+	opDrawRune            // RuneFrom(3 runes of different encoded length).Draw: loaded die + index draw
+	opHelperA             // Fatalf at the first of two sites inside ONE helper function that calls t.Helper()
+	opHelperB             // Fatalf at the second site of the same helper (same caller line)
+	opPanicVal            // panic whose VALUE (and so its message) depends on the last drawn bool, at one site
+	opCleanupFailA        // register a cleanup function that fails (Fatalf) - site A
+	opCleanupFailB        // register another cleanup function that fails (Fatalf) - site B: a different function
 	opCount
 )
 
@@ -137,45 +137,45 @@ const (
 )
 
 type vInv struct {
-	draws    []uint64 // values received, in order
-	topDraws []uint64 // ... by the property body itself (not inside callbacks)
-	drawLog  []string // what the draw log lines of this invocation should say
-	attempts int      // draws started (a draw cut short by invalid data is started but not received)
-	signals  int      // failure signals raised during this invocation (incl. its cleanups and custom fns)
-	nonFatal int
-	fatalAt  int    // site id of the fatal failure, 0 if none
-	failMsg  string // message of a value-dependent failure (opFatalVal)
-	skipped  bool   // ended by skip
-	ended    bool   // body finished (any way)
-	cleanReg int    // cleanups registered
-	cleanRun []int  // ids of cleanups run, in order
-	cleanIds []int  // ids registered, in order
-	ctxLive  []bool // ctx.Err()==nil at each sample in the body
-	ctxSame  bool   // all samples are the same object
+	draws                 []uint64 // values received, in order
+	topDraws              []uint64 // ... by the property body itself (not inside callbacks)
+	drawLog               []string // what the draw log lines of this invocation should say
+	attempts              int      // draws started (a draw cut short by invalid data is started but not received)
+	signals               int      // failure signals raised during this invocation (incl. its cleanups and custom fns)
+	nonFatal              int
+	fatalAt               int    // site id of the fatal failure, 0 if none
+	failMsg               string // message of a value-dependent failure (opFatalVal)
+	skipped               bool   // ended by skip
+	ended                 bool   // body finished (any way)
+	cleanReg              int    // cleanups registered
+	cleanRun              []int  // ids of cleanups run, in order
+	cleanIds              []int  // ids registered, in order
+	ctxLive               []bool // ctx.Err()==nil at each sample in the body
+	ctxSame               bool   // all samples are the same object
 	ctxInCleanupCancelled []bool
-	overlap  bool // another invocation began before this one's cleanups finished
-	rawPanics    int // panic(x) / run-time panics raised by user code (not through T)
-	panicNil     int // panic(nil) raised by user code
-	cbReg        int  // cleanups registered inside Custom generator functions
-	cbRun        int  // ... of which have run
-	customCalls  int  // invocations of a Custom generator function (every try counts)
-	customSignals int // failure signals raised inside Custom generator functions (they reach the test case as a panic)
-	customLeak   bool // a Custom function was entered while cleanups of an earlier call were still pending
-	customCtxBad bool // a Custom call saw the context of an earlier call, or that context was still live
-	cleanupSkips int // t.Skip called from inside a cleanup callback
-	cleanupInvalid int // cleanup callbacks that ended by raising invalid data (skip, overrun, ...)
+	overlap               bool // another invocation began before this one's cleanups finished
+	rawPanics             int  // panic(x) / run-time panics raised by user code (not through T)
+	panicNil              int  // panic(nil) raised by user code
+	cbReg                 int  // cleanups registered inside Custom generator functions
+	cbRun                 int  // ... of which have run
+	customCalls           int  // invocations of a Custom generator function (every try counts)
+	customSignals         int  // failure signals raised inside Custom generator functions (they reach the test case as a panic)
+	customLeak            bool // a Custom function was entered while cleanups of an earlier call were still pending
+	customCtxBad          bool // a Custom call saw the context of an earlier call, or that context was still live
+	cleanupSkips          int  // t.Skip called from inside a cleanup callback
+	cleanupInvalid        int  // cleanup callbacks that ended by raising invalid data (skip, overrun, ...)
 }
 
 type vProg struct {
-	ops  []uint8 // main program
-	sub  []uint8 // sub-program for cleanup / custom callbacks
-	sub2 []uint8 // program of a cleanup registered from inside a callback
-	invs []*vInv
-	cur  *vInv
+	ops         []uint8 // main program
+	sub         []uint8 // sub-program for cleanup / custom callbacks
+	sub2        []uint8 // program of a cleanup registered from inside a callback
+	invs        []*vInv
+	cur         *vInv
 	nextCleanup int
-	firstCtx any
-	maxInv   int // bound on the number of fresh (generation-phase) test cases explored (0 = none)
-	fresh    int
+	firstCtx    any
+	maxInv      int // bound on the number of fresh (generation-phase) test cases explored (0 = none)
+	fresh       int
 }
 
 // newVProg makes a program of k symbolic opcodes (plus ksub for callbacks) restricted to alphabet.
@@ -460,6 +460,23 @@ func (p *vProg) execCB(t *T, ops []uint8, inv *vInv, inCallback bool, inCleanup 
 			})
 		case opCustom:
 			var prevCtx context.Context
+			// failure signals raised on the inner T - by the generator function or by the cleanups it
+			// registered - reach the test case as a panic out of Draw
+			signalsBefore := inv.signals
+			func() {
+				defer func() { inv.customSignals += inv.signals - signalsBefore }()
+				customDraw(t, p, inv, &prevCtx, inCallback)
+			}()
+		}
+	}
+}
+
+// customDraw is the body of opCustom: a draw from a Custom generator whose function runs the
+// sub-program on its own T.
+func customDraw(t *T, p *vProg, inv *vInv, prev *context.Context, inCallback bool) {
+	{
+		{
+			prevCtx := *prev
 			v := Custom(func(ct *T) int {
 				// every call of the generator function (also a retry after a skip) is its own
 				// invocation: the cleanups of the previous call have run, its context is cancelled
@@ -472,8 +489,6 @@ func (p *vProg) execCB(t *T, ops []uint8, inv *vInv, inCallback bool, inCleanup 
 					inv.customCtxBad = true
 				}
 				prevCtx = ctx
-				before := inv.signals
-				defer func() { inv.customSignals += inv.signals - before }()
 				p.exec(ct, p.sub, inv, true)
 				if Bool().Draw(ct, "cb") {
 					return 1
@@ -511,11 +526,11 @@ func farDeadline() time.Time { return time.Now().Add(24 * time.Hour) }
 
 // outcomeProp is a property whose i-th invocation passes, skips or fails as the solver chooses.
 type outcomeProp struct {
-	calls   int
-	passes  int
-	skips   int
-	fails   int
-	after   int // invocations after the first failing one
+	calls        int
+	passes       int
+	skips        int
+	fails        int
+	after        int // invocations after the first failing one
 	firstOutcome int
 }
 
@@ -563,13 +578,13 @@ func freshT(t *T) bool {
 // cTB is a TB without shared state: testing.T's Helper/Name/Logf/Log are goroutine-safe by contract.
 type cTB struct{ nilTB }
 
-func (cTB) Helper()             {}
+func (cTB) Helper() {}
 
-func (cTB) Name() string        { return "C14" }
+func (cTB) Name() string { return "C14" }
 
 func (cTB) Logf(string, ...any) {}
 
-func (cTB) Log(...any)          {}
+func (cTB) Log(...any) {}
 
 func concProgs(name string, g, k int, alphabet []uint8) [][]uint8 {
 	progs := make([][]uint8, g)
